@@ -106,7 +106,8 @@ def regex_to_z3(rx, sigma=ALPHABET, search=False):
             raise Unparsed('^ inside %r' % rx)
         if c == '$':
             eat()
-            if pos[0] == n:
+            if pos[0] == n or set(rx[pos[0]:]) == {')'}:
+                # at the very end, possibly inside the group(s) that close there: the end of the subject
                 anchored_end[0] = True
                 return z3.Re('')
             raise Unparsed('$ inside %r' % rx)
